@@ -118,94 +118,338 @@ theorem flatMap_beBytes_length (w : Nat) (xs : List Nat) : (xs.flatMap (beBytes 
 
 /-! ## the per-table loop -/
 
+/-- the arm (a tag of `table_tag_list`) that writes table `t` -/
+def ownerOf (t : Tag) : Option Tag :=
+  if t = TAG_glyf ∨ t = TAG_loca then some TAG_glyf
+  else if t = TAG_gvar then some TAG_gvar
+  else if t = TAG_CFF then some TAG_CFF
+  else if t = TAG_CFF2 then some TAG_CFF2
+  else none
+
+/-- the four tags that select an arm -/
+def IsArmTag (tag : Tag) : Prop := tag = TAG_glyf ∨ tag = TAG_gvar ∨ tag = TAG_CFF ∨ tag = TAG_CFF2
+
+instance (tag : Tag) : Decidable (IsArmTag tag) := by unfold IsArmTag; infer_instance
+
+theorem ownerOf_eq_iff (t tag : Nat) : ownerOf t = some tag ↔
+    (tag = TAG_glyf ∧ (t = TAG_glyf ∨ t = TAG_loca)) ∨ (tag = TAG_gvar ∧ t = TAG_gvar) ∨
+    (tag = TAG_CFF ∧ t = TAG_CFF) ∨ (tag = TAG_CFF2 ∧ t = TAG_CFF2) := by
+  unfold ownerOf
+  by_cases c1 : t = TAG_glyf ∨ t = TAG_loca
+  · rw [if_pos c1]; simp only [Option.some.injEq, TAG_glyf, TAG_loca, TAG_gvar, TAG_CFF, TAG_CFF2] at *
+    constructor
+    · intro hh; exact Or.inl ⟨hh.symm, c1⟩
+    · rintro (⟨e, _⟩ | ⟨_, e⟩ | ⟨_, e⟩ | ⟨_, e⟩) <;> first | exact e.symm | omega
+  · rw [if_neg c1]
+    by_cases c2 : t = TAG_gvar
+    · rw [if_pos c2]; simp only [Option.some.injEq, TAG_glyf, TAG_loca, TAG_gvar, TAG_CFF, TAG_CFF2] at *
+      constructor
+      · intro hh; exact Or.inr (Or.inl ⟨hh.symm, c2⟩)
+      · rintro (⟨_, e⟩ | ⟨e, _⟩ | ⟨_, e⟩ | ⟨_, e⟩) <;> first | exact e.symm | omega
+    · rw [if_neg c2]
+      by_cases c3 : t = TAG_CFF
+      · rw [if_pos c3]; simp only [Option.some.injEq, TAG_glyf, TAG_loca, TAG_gvar, TAG_CFF, TAG_CFF2] at *
+        constructor
+        · intro hh; exact Or.inr (Or.inr (Or.inl ⟨hh.symm, c3⟩))
+        · rintro (⟨_, e⟩ | ⟨_, e⟩ | ⟨e, _⟩ | ⟨_, e⟩) <;> first | exact e.symm | omega
+      · rw [if_neg c3]
+        by_cases c4 : t = TAG_CFF2
+        · rw [if_pos c4]; simp only [Option.some.injEq, TAG_glyf, TAG_loca, TAG_gvar, TAG_CFF, TAG_CFF2] at *
+          constructor
+          · intro hh; exact Or.inr (Or.inr (Or.inr ⟨hh.symm, c4⟩))
+          · rintro (⟨_, e⟩ | ⟨_, e⟩ | ⟨_, e⟩ | ⟨e, _⟩) <;> first | exact e.symm | omega
+        · rw [if_neg c4]; simp only [reduceCtorEq, false_iff, TAG_glyf, TAG_loca, TAG_gvar, TAG_CFF, TAG_CFF2] at *
+          rintro (⟨_, e⟩ | ⟨_, e⟩ | ⟨_, e⟩ | ⟨_, e⟩) <;> first | exact e.symm | omega
+
+theorem ownerOf_glyf_iff (t : Nat) : ownerOf t = some TAG_glyf ↔ (t = TAG_glyf ∨ t = TAG_loca) := by
+  rw [ownerOf_eq_iff]
+  constructor
+  · rintro (⟨_, e⟩ | ⟨e, _⟩ | ⟨e, _⟩ | ⟨e, _⟩)
+    · exact e
+    · exact absurd e (by decide)
+    · exact absurd e (by decide)
+    · exact absurd e (by decide)
+  · intro e; exact Or.inl ⟨rfl, e⟩
+
+theorem ownerOf_single_iff (t tag : Nat) (h : tag = TAG_gvar ∨ tag = TAG_CFF ∨ tag = TAG_CFF2) :
+    ownerOf t = some tag ↔ t = tag := by
+  rw [ownerOf_eq_iff]
+  constructor
+  · rintro (⟨e, _⟩ | ⟨e1, e2⟩ | ⟨e1, e2⟩ | ⟨e1, e2⟩)
+    · subst e; rcases h with h | h | h <;> exact absurd h (by decide)
+    · rw [e1, e2]
+    · rw [e1, e2]
+    · rw [e1, e2]
+  · intro e
+    subst e
+    rcases h with h | h | h
+    · exact Or.inr (Or.inl ⟨h, h⟩)
+    · exact Or.inr (Or.inr (Or.inl ⟨h, h⟩))
+    · exact Or.inr (Or.inr (Or.inr ⟨h, h⟩))
+
+theorem ownerOf_some (t tag : Tag) (h : ownerOf t = some tag) : IsArmTag tag := by
+  unfold IsArmTag
+  rcases (ownerOf_eq_iff t tag).mp h with ⟨e, _⟩ | ⟨e, _⟩ | ⟨e, _⟩ | ⟨e, _⟩
+  · exact Or.inl e
+  · exact Or.inr (Or.inl e)
+  · exact Or.inr (Or.inr (Or.inl e))
+  · exact Or.inr (Or.inr (Or.inr e))
+
+theorem armOf_none_iff (font : Font) (gps : List GlyphPatches) (m : Nat) (tag : Tag) :
+    armOf font gps m tag = none ↔ ¬ IsArmTag tag := by
+  unfold armOf IsArmTag
+  by_cases h1 : tag = TAG_glyf
+  · rw [if_pos h1]; simp [h1]
+  · rw [if_neg h1]
+    by_cases h2 : tag = TAG_gvar
+    · rw [if_pos h2]; simp [h2]
+    · rw [if_neg h2]
+      by_cases h3 : tag = TAG_CFF
+      · rw [if_pos h3]; simp [h3]
+      · rw [if_neg h3]
+        by_cases h4 : tag = TAG_CFF2
+        · rw [if_pos h4]; simp [h4]
+        · rw [if_neg h4]; simp [h1, h2, h3, h4]
+
+/-- what a (successful) arm adds to the builder; `[]` for ignored tags -/
+def armOuts (font : Font) (gps : List GlyphPatches) (m : Nat) (tag : Tag) : List (Tag × Bytes) :=
+  match armOf font gps m tag with
+  | some (.ok outs) => outs
+  | _ => []
+
+theorem oneTable_ok (tag : Tag) (r : Except PErr Bytes) (outs : List (Tag × Bytes))
+    (h : oneTable tag r = .ok outs) : ∃ b, r = .ok b ∧ outs = [(tag, b)] := by
+  unfold oneTable at h
+  cases r with
+  | error e => cases h
+  | ok b => simp only [Except.ok.injEq] at h; exact ⟨b, rfl, h.symm⟩
+
+theorem glyfArm_ok (font : Font) (gps : List GlyphPatches) (m : Nat) (outs : List (Tag × Bytes))
+    (h : glyfArm font gps m = .ok outs) :
+    ∃ a repl data offs, glyfAndLoca font = some a ∧ dedup TAG_glyf gps = .ok repl ∧
+      patchOffsetArray a repl m = .ok (a.offsetType, data, offs) ∧
+      outs = [(TAG_glyf, data), (TAG_loca, offs)] := by
+  unfold glyfArm at h
+  cases ha : glyfAndLoca font with
+  | none => rw [ha] at h; cases h
+  | some a =>
+    rw [ha] at h
+    simp only at h
+    cases hd : dedup TAG_glyf gps with
+    | error e => rw [hd] at h; cases h
+    | ok repl =>
+      rw [hd] at h
+      simp only at h
+      cases hp : patchOffsetArray a repl m with
+      | error e => rw [hp] at h; cases h
+      | ok r =>
+        obtain ⟨t, data, offs⟩ := r
+        rw [hp] at h
+        simp only at h
+        by_cases ht : t = a.offsetType
+        · subst ht
+          simp only [ne_eq, not_true_eq_false, if_false, Except.ok.injEq] at h
+          exact ⟨a, repl, data, offs, rfl, rfl, hp, h.symm⟩
+        · simp only [ne_eq, ht, not_false_eq_true, if_true] at h; cases h
+
+/-- the tables a successful arm adds: glyf + loca, or the one table named by the tag -/
+theorem armOf_ok_shape (font : Font) (gps : List GlyphPatches) (m : Nat) (tag : Tag)
+    (outs : List (Tag × Bytes)) (h : armOf font gps m tag = some (.ok outs)) :
+    (tag = TAG_glyf ∧ ∃ d o, outs = [(TAG_glyf, d), (TAG_loca, o)]) ∨
+    ((tag = TAG_gvar ∨ tag = TAG_CFF ∨ tag = TAG_CFF2) ∧ ∃ b, outs = [(tag, b)]) := by
+  unfold armOf at h
+  by_cases h1 : tag = TAG_glyf
+  · subst h1
+    simp only [if_true, Option.some.injEq] at h
+    obtain ⟨_, _, d, o, _, _, _, e⟩ := glyfArm_ok font gps m outs h
+    exact Or.inl ⟨rfl, d, o, e⟩
+  · simp only [h1, if_false] at h
+    by_cases h2 : tag = TAG_gvar
+    · subst h2
+      simp only [if_true, Option.some.injEq] at h
+      obtain ⟨b, _, e⟩ := oneTable_ok _ _ _ h
+      exact Or.inr ⟨Or.inl rfl, b, e⟩
+    · simp only [h2, if_false] at h
+      by_cases h3 : tag = TAG_CFF
+      · subst h3
+        simp only [if_true, Option.some.injEq] at h
+        obtain ⟨b, _, e⟩ := oneTable_ok _ _ _ h
+        exact Or.inr ⟨Or.inr (Or.inl rfl), b, e⟩
+      · simp only [h3, if_false] at h
+        by_cases h4 : tag = TAG_CFF2
+        · subst h4
+          simp only [if_true, Option.some.injEq] at h
+          obtain ⟨b, _, e⟩ := oneTable_ok _ _ _ h
+          exact Or.inr ⟨Or.inr (Or.inr rfl), b, e⟩
+        · simp only [h4, if_false] at h; cases h
+
+/-- the builder and `processed_tables` after a successful arm -/
+theorem addOuts_spec (font : Font) (gps : List GlyphPatches) (m : Nat) (tag : Tag)
+    (outs : List (Tag × Bytes)) (h : armOf font gps m tag = some (.ok outs)) (p0 : List Tag) (b0 : Font) :
+    (∀ t, (addOuts outs (p0, b0)).2.lookup t = if ownerOf t = some tag then outs.lookup t else b0.lookup t) ∧
+    (∀ t, t ∈ (addOuts outs (p0, b0)).1 ↔ t ∈ p0 ∨ ownerOf t = some tag) ∧
+    (∀ t, ownerOf t = some tag → (outs.lookup t).isSome) := by
+  rcases armOf_ok_shape font gps m tag outs h with ⟨e, d, o, eo⟩ | ⟨e, b, eo⟩
+  · subst e eo
+    refine ⟨?_, ?_, ?_⟩
+    · intro t
+      simp only [addOuts, List.foldl_cons, List.foldl_nil]
+      by_cases c1 : t = TAG_loca
+      · subst c1
+        rw [lookup_insertTable_self, if_pos ((ownerOf_glyf_iff _).mpr (Or.inr rfl))]
+        simp [List.lookup, show (TAG_loca == TAG_glyf) = false by decide]
+      · rw [lookup_insertTable_ne _ _ _ _ c1]
+        by_cases c2 : t = TAG_glyf
+        · subst c2
+          rw [lookup_insertTable_self, if_pos ((ownerOf_glyf_iff _).mpr (Or.inl rfl))]
+          simp [List.lookup]
+        · rw [lookup_insertTable_ne _ _ _ _ c2, if_neg]
+          intro hh
+          rcases (ownerOf_glyf_iff t).mp hh with e | e
+          · exact c2 e
+          · exact c1 e
+    · intro t
+      simp only [addOuts, List.foldl_cons, List.foldl_nil, List.mem_cons]
+      rw [ownerOf_glyf_iff]
+      constructor
+      · rintro (e | e | e)
+        · exact Or.inr (Or.inr e)
+        · exact Or.inr (Or.inl e)
+        · exact Or.inl e
+      · rintro (e | e | e)
+        · exact Or.inr (Or.inr e)
+        · exact Or.inr (Or.inl e)
+        · exact Or.inl e
+    · intro t ht
+      rcases (ownerOf_glyf_iff t).mp ht with e | e
+      · subst e; simp [List.lookup]
+      · subst e; simp [List.lookup, show (TAG_loca == TAG_glyf) = false by decide]
+  · subst eo
+    have hown : ∀ t, ownerOf t = some tag ↔ t = tag := fun t => ownerOf_single_iff t tag e
+    refine ⟨?_, ?_, ?_⟩
+    · intro t
+      simp only [addOuts, List.foldl_cons, List.foldl_nil]
+      by_cases c : t = tag
+      · subst c
+        rw [lookup_insertTable_self, if_pos ((hown t).mpr rfl)]
+        simp [List.lookup]
+      · rw [lookup_insertTable_ne _ _ _ _ c, if_neg (fun hh => c ((hown t).mp hh))]
+    · intro t
+      simp only [addOuts, List.foldl_cons, List.foldl_nil, List.mem_cons]
+      rw [hown t]
+      constructor
+      · rintro (e' | e')
+        · exact Or.inr e'
+        · exact Or.inl e'
+      · rintro (e' | e')
+        · exact Or.inr e'
+        · exact Or.inl e'
+    · intro t ht
+      have := (hown t).mp ht
+      subst this
+      simp [List.lookup]
+
 theorem patchTables_spec (font : Font) (gps : List GlyphPatches) (maxGid : Nat) (tags : List Tag)
     (p0 : List Tag) (b0 : Font) (p : List Tag) (b : Font)
     (h : patchTables font gps maxGid tags (p0, b0) = .ok (p, b)) :
-    (∀ tag ∈ tags, tag ≠ TAG_gvar ∧ tag ≠ TAG_CFF ∧ tag ≠ TAG_CFF2) ∧
-    (TAG_glyf ∈ tags → ∃ a repl data offs, glyfAndLoca font = some a ∧ dedup TAG_glyf gps = .ok repl ∧
-        patchOffsetArray a repl maxGid = .ok (a.offsetType, data, offs) ∧
-        b.lookup TAG_glyf = some data ∧ b.lookup TAG_loca = some offs ∧
-        (∀ t, t ≠ TAG_glyf → t ≠ TAG_loca → b.lookup t = b0.lookup t) ∧
-        (∀ t, t ∈ p ↔ (t ∈ p0 ∨ t = TAG_glyf ∨ t = TAG_loca))) ∧
-    (TAG_glyf ∉ tags → b = b0 ∧ p = p0) := by
+    (∀ tag ∈ tags, ∀ r, armOf font gps maxGid tag = some r → ∃ outs, r = .ok outs) ∧
+    (∀ t, b.lookup t =
+      match ownerOf t with
+      | some tag => if tag ∈ tags then (armOuts font gps maxGid tag).lookup t else b0.lookup t
+      | none => b0.lookup t) ∧
+    (∀ t, t ∈ p ↔ t ∈ p0 ∨ ∃ tag, ownerOf t = some tag ∧ tag ∈ tags) := by
   induction tags generalizing p0 b0 with
   | nil =>
     simp only [patchTables, Except.ok.injEq, Prod.mk.injEq] at h
     obtain ⟨h1, h2⟩ := h
     subst h1 h2
-    exact ⟨by simp, by simp, by simp⟩
+    refine ⟨by simp, ?_, by simp⟩
+    intro t
+    cases ownerOf t <;> simp
   | cons tag rest ih =>
     unfold patchTables at h
-    by_cases hg : tag = TAG_glyf
-    · subst hg
-      simp only [if_true] at h
-      cases ha : glyfAndLoca font with
-      | none => rw [ha] at h; cases h
-      | some a =>
-        rw [ha] at h
+    cases ha : armOf font gps maxGid tag with
+    | none =>
+      rw [ha] at h
+      simp only at h
+      have hna : ¬ IsArmTag tag := (armOf_none_iff font gps maxGid tag).mp ha
+      obtain ⟨i1, i2, i3⟩ := ih _ _ h
+      have hne : ∀ t tg, ownerOf t = some tg → tg ≠ tag := by
+        intro t tg ho e; subst e; exact hna (ownerOf_some t _ ho)
+      refine ⟨?_, ?_, ?_⟩
+      · intro x hx r hr
+        rcases List.mem_cons.mp hx with e | e
+        · subst e; rw [ha] at hr; cases hr
+        · exact i1 x e r hr
+      · intro t
+        rw [i2 t]
+        cases ho : ownerOf t with
+        | none => rfl
+        | some tg => simp only [List.mem_cons, hne t tg ho, false_or]
+      · intro t
+        rw [i3 t]
+        constructor
+        · rintro (e | ⟨tg, e1, e2⟩)
+          · exact Or.inl e
+          · exact Or.inr ⟨tg, e1, List.mem_cons_of_mem _ e2⟩
+        · rintro (e | ⟨tg, e1, e2⟩)
+          · exact Or.inl e
+          · rcases List.mem_cons.mp e2 with e3 | e3
+            · exact absurd e3 (hne t tg e1)
+            · exact Or.inr ⟨tg, e1, e3⟩
+    | some r =>
+      rw [ha] at h
+      cases r with
+      | error e => simp only at h; cases h
+      | ok outs =>
         simp only at h
-        cases hd : dedup TAG_glyf gps with
-        | error e => rw [hd] at h; cases h
-        | ok repl =>
-          rw [hd] at h
-          simp only at h
-          cases hp : patchOffsetArray a repl maxGid with
-          | error e => rw [hp] at h; cases h
-          | ok r =>
-            obtain ⟨t, data, offs⟩ := r
-            rw [hp] at h
-            simp only at h
-            by_cases ht : t = a.offsetType
-            · subst ht
-              simp only [ne_eq, not_true_eq_false, if_false] at h
-              obtain ⟨i1, i2, i3⟩ := ih _ _ h
-              refine ⟨?_, ?_, ?_⟩
-              · intro x hx
-                rcases List.mem_cons.mp hx with e | e
-                · subst e; decide
-                · exact i1 x e
-              · intro _
-                by_cases hr : TAG_glyf ∈ rest
-                · obtain ⟨a', repl', data', offs', j1, j2, j3, j4, j5, j6, j7⟩ := i2 hr
-                  rw [ha] at j1; cases j1
-                  rw [hd] at j2; cases j2
-                  rw [hp] at j3; cases j3
-                  refine ⟨_, _, _, _, rfl, rfl, hp, j4, j5, ?_, ?_⟩
-                  · intro x hx1 hx2
-                    rw [j6 x hx1 hx2, lookup_insertTable_ne _ _ _ _ hx2, lookup_insertTable_ne _ _ _ _ hx1]
-                  · intro x; rw [j7 x]; simp only [List.mem_cons]
-                    constructor
-                    · rintro ((e | e | e) | e | e) <;> simp_all
-                    · rintro (e | e | e) <;> simp_all
-                · obtain ⟨j1, j2⟩ := i3 hr
-                  subst j1 j2
-                  refine ⟨_, _, _, _, rfl, rfl, hp, ?_, ?_, ?_, ?_⟩
-                  · rw [lookup_insertTable_ne _ _ _ _ (by decide), lookup_insertTable_self]
-                  · rw [lookup_insertTable_self]
-                  · intro x hx1 hx2
-                    rw [lookup_insertTable_ne _ _ _ _ hx2, lookup_insertTable_ne _ _ _ _ hx1]
-                  · intro x; simp only [List.mem_cons]
-                    constructor
-                    · rintro (e | e | e) <;> simp_all
-                    · rintro (e | e | e) <;> simp_all
-              · intro hn; exact absurd (List.mem_cons_self) hn
-            · simp only [ne_eq, ht, not_false_eq_true, if_true] at h; cases h
-    · simp only [hg, if_false] at h
-      by_cases hu : tag = TAG_gvar ∨ tag = TAG_CFF ∨ tag = TAG_CFF2
-      · simp only [hu, if_true] at h; cases h
-      · simp only [hu, if_false] at h
+        obtain ⟨a1, a2, a3⟩ := addOuts_spec font gps maxGid tag outs ha p0 b0
+        have hst : addOuts outs (p0, b0) = ((addOuts outs (p0, b0)).1, (addOuts outs (p0, b0)).2) := rfl
+        rw [hst] at h
         obtain ⟨i1, i2, i3⟩ := ih _ _ h
+        have hao : armOuts font gps maxGid tag = outs := by simp [armOuts, ha]
         refine ⟨?_, ?_, ?_⟩
-        · intro x hx
+        · intro x hx r hr
           rcases List.mem_cons.mp hx with e | e
-          · subst e; simp only [not_or] at hu; exact hu
-          · exact i1 x e
-        · intro hm
-          rcases List.mem_cons.mp hm with e | e
-          · exact absurd e.symm hg
-          · exact i2 e
-        · intro hn
-          exact i3 (fun hm => hn (List.mem_cons_of_mem _ hm))
+          · subst e; rw [ha] at hr; cases hr; exact ⟨outs, rfl⟩
+          · exact i1 x e r hr
+        · intro t
+          rw [i2 t]
+          cases ho : ownerOf t with
+          | none =>
+            simp only
+            rw [a1 t, ho]
+            simp
+          | some tg =>
+            simp only [List.mem_cons]
+            by_cases c1 : tg ∈ rest
+            · simp [c1]
+            · simp only [c1, if_false, or_false]
+              rw [a1 t, ho]
+              by_cases c2 : tg = tag
+              · subst c2; simp [hao]
+              · simp [c2]
+        · intro t
+          rw [i3 t, a2 t]
+          constructor
+          · rintro ((e | e) | ⟨tg, e1, e2⟩)
+            · exact Or.inl e
+            · exact Or.inr ⟨tag, e, List.mem_cons_self⟩
+            · exact Or.inr ⟨tg, e1, List.mem_cons_of_mem _ e2⟩
+          · rintro (e | ⟨tg, e1, e2⟩)
+            · exact Or.inl (Or.inl e)
+            · rcases List.mem_cons.mp e2 with e3 | e3
+              · subst e3; exact Or.inl (Or.inr e1)
+              · exact Or.inr ⟨tg, e1, e3⟩
+
+theorem addOuts_sorted (outs : List (Tag × Bytes)) (p : List Tag) (b : Font) (hs : SortedGids b) :
+    SortedGids (addOuts outs (p, b)).2 := by
+  unfold addOuts
+  induction outs generalizing p b with
+  | nil => exact hs
+  | cons x xs ih =>
+    simp only [List.foldl_cons]
+    exact ih _ _ (insertTable_sorted _ _ _ hs)
 
 theorem patchTables_sorted (font : Font) (gps : List GlyphPatches) (maxGid : Nat) (tags : List Tag)
     (p0 : List Tag) (b0 : Font) (p : List Tag) (b : Font) (hs : SortedGids b0)
@@ -217,36 +461,25 @@ theorem patchTables_sorted (font : Font) (gps : List GlyphPatches) (maxGid : Nat
   | cons tag rest ih =>
     unfold patchTables at h
     split at h
-    · split at h
-      · cases h
-      · split at h
-        · cases h
-        · split at h
-          · cases h
-          · split at h
-            · cases h
-            · exact ih _ _ (insertTable_sorted _ _ _ (insertTable_sorted _ _ _ hs)) h
-    · split at h
-      · cases h
-      · exact ih _ _ hs h
+    · exact ih _ _ hs h
+    · cases h
+    · rename_i outs _
+      have hst : addOuts outs (p0, b0) = ((addOuts outs (p0, b0)).1, (addOuts outs (p0, b0)).2) := rfl
+      rw [hst] at h
+      exact ih _ _ (addOuts_sorted outs p0 b0 hs) h
 
-/-- the loop depends on the patches only through `dedup TAG_glyf` -/
+/-- the loop depends on the patches only through the arms of the listed tags -/
 theorem patchTables_congr (font : Font) (gps gps' : List GlyphPatches) (maxGid : Nat) (tags : List Tag)
-    (st : List Tag × Font) (h : TAG_glyf ∈ tags → dedup TAG_glyf gps = dedup TAG_glyf gps') :
+    (st : List Tag × Font) (h : ∀ tag ∈ tags, armOf font gps maxGid tag = armOf font gps' maxGid tag) :
     patchTables font gps maxGid tags st = patchTables font gps' maxGid tags st := by
   induction tags generalizing st with
-  | nil => obtain ⟨p, b⟩ := st; simp [patchTables]
+  | nil => simp [patchTables]
   | cons tag rest ih =>
-    obtain ⟨p, b⟩ := st
     unfold patchTables
     have ihr : ∀ st, patchTables font gps maxGid rest st = patchTables font gps' maxGid rest st :=
-      fun st => ih st (fun hm => h (List.mem_cons_of_mem _ hm))
-    by_cases hg : tag = TAG_glyf
-    · subst hg
-      simp only [if_true]
-      rw [h (by simp)]
-      simp only [ihr]
-    · simp only [hg, if_false, ihr]
+      fun st => ih st (fun x hx => h x (List.mem_cons_of_mem _ hx))
+    rw [h tag List.mem_cons_self]
+    simp only [ihr]
 
 /-! ## applied bits -/
 
@@ -391,18 +624,20 @@ theorem addOpt_sorted (t : Tag) (o : Option Bytes) (b : Font) (hs : SortedGids b
   | none => exact hs
   | some d => exact insertTable_sorted _ _ _ hs
 
-/-- table-by-table characterisation of a successful `apply_glyph_keyed_patches` -/
+/-- table-by-table characterisation of a successful `apply_glyph_keyed_patches`: the two mapping
+tables carry the applied bits; every arm selected by a listed tag succeeded; a table owned by such an
+arm is what the arm produced; every other table is the base font's (or still absent). -/
 theorem applyGlyphPatches_char (infos : List PatchInfo) (gps : List GlyphPatches) (font out : Font)
     (hu : UniqueTags font) (h : applyGlyphPatches infos gps font = .ok out) :
     ∃ tags ift iftx, numGlyphs font ≠ 0 ∧ tableTagList gps = .ok tags ∧
       markApplied infos (font.get TAG_IFT, font.get TAG_IFTX) = .ok (ift, iftx) ∧
       SortedGids out ∧ out.get TAG_IFT = ift ∧ out.get TAG_IFTX = iftx ∧
-      (∀ t, t ≠ TAG_IFT → t ≠ TAG_IFTX → t ≠ TAG_glyf → t ≠ TAG_loca → out.get t = font.get t) ∧
-      (∀ tag ∈ tags, tag ≠ TAG_gvar ∧ tag ≠ TAG_CFF ∧ tag ≠ TAG_CFF2) ∧
-      (TAG_glyf ∈ tags → ∃ a repl data offs, glyfAndLoca font = some a ∧ dedup TAG_glyf gps = .ok repl ∧
-          patchOffsetArray a repl (numGlyphs font - 1) = .ok (a.offsetType, data, offs) ∧
-          out.get TAG_glyf = some data ∧ out.get TAG_loca = some offs) ∧
-      (TAG_glyf ∉ tags → out.get TAG_glyf = font.get TAG_glyf ∧ out.get TAG_loca = font.get TAG_loca) := by
+      (∀ tag ∈ tags, ∀ r, armOf font gps (numGlyphs font - 1) tag = some r → ∃ outs, r = .ok outs) ∧
+      (∀ t, t ≠ TAG_IFT → t ≠ TAG_IFTX → out.get t =
+        match ownerOf t with
+        | some tag =>
+          if tag ∈ tags then (armOuts font gps (numGlyphs font - 1) tag).lookup t else font.get t
+        | none => font.get t) := by
   unfold applyGlyphPatches at h
   cases hm : font.get TAG_maxp with
   | none => rw [hm] at h; cases h
@@ -436,68 +671,117 @@ theorem applyGlyphPatches_char (infos : List PatchInfo) (gps : List GlyphPatches
             clear h
             generalize hb2 : addOpt TAG_IFTX iftx (addOpt TAG_IFT ift b) = b2 at hform
             have hbs : SortedGids b := patchTables_sorted font gps _ tags _ _ p b (by simp [SortedGids]) hp
-            have hbn : ∀ t, t ≠ TAG_glyf → t ≠ TAG_loca → b.lookup t = none := by
-              intro t h1 h2
-              by_cases hg : TAG_glyf ∈ tags
-              · obtain ⟨_, _, _, _, _, _, _, _, _, j6, _⟩ := s2 hg
-                rw [j6 t h1 h2]; rfl
-              · rw [(s3 hg).1]; rfl
-            have hpm : ∀ t, t ∈ p ↔ (t = TAG_IFTX ∨ t = TAG_IFT ∨ (TAG_glyf ∈ tags ∧ (t = TAG_glyf ∨ t = TAG_loca))) := by
-              intro t
-              by_cases hg : TAG_glyf ∈ tags
-              · obtain ⟨_, _, _, _, _, _, _, _, _, _, j7⟩ := s2 hg
-                rw [j7 t]; simp [hg, or_assoc]
-              · rw [(s3 hg).2]; simp [hg]
+            have hno : ∀ t, t = TAG_IFT ∨ t = TAG_IFTX → ownerOf t = none := by
+              intro t ht
+              rcases ht with e | e <;> subst e <;> decide
+            have hbn : ∀ t, t = TAG_IFT ∨ t = TAG_IFTX → b.lookup t = none := by
+              intro t ht
+              rw [s2 t, hno t ht]; rfl
             have hb2l : ∀ t, b2.lookup t = if t = TAG_IFTX then iftx else if t = TAG_IFT then ift else b.lookup t := by
               intro t
               subst hb2
               rw [addOpt_lookup, addOpt_lookup, addOpt_lookup]
               simp only [show TAG_IFTX ≠ TAG_IFT by decide, if_false,
-                hbn TAG_IFTX (by decide) (by decide), hbn TAG_IFT (by decide) (by decide), Option.or_none]
+                hbn TAG_IFTX (Or.inr rfl), hbn TAG_IFT (Or.inl rfl), Option.or_none]
             have hb2s : SortedGids b2 := by
               subst hb2; exact addOpt_sorted _ _ _ (addOpt_sorted _ _ _ hbs)
             subst hform
             have hout := fun t => copyUnprocessed_lookup font p b2 t hu
             have hc : ∀ t, p.contains t = true ↔ t ∈ p := fun t => by simp
             refine ⟨tags, ift, iftx, by rw [hng]; exact hz, rfl, rfl,
-              copyUnprocessed_sorted _ _ _ hb2s, ?_, ?_, ?_, s1, ?_, ?_⟩
+              copyUnprocessed_sorted _ _ _ hb2s, ?_, ?_, by rw [hng]; exact s1, ?_⟩
             · unfold Font.get
-              rw [hout, if_pos ((hc _).mpr ((hpm _).mpr (Or.inr (Or.inl rfl)))), hb2l]
+              rw [hout, if_pos ((hc _).mpr ((s3 _).mpr (Or.inl (by simp)))), hb2l]
               simp only [show TAG_IFT ≠ TAG_IFTX by decide, if_false, if_true]
             · unfold Font.get
-              rw [hout, if_pos ((hc _).mpr ((hpm _).mpr (Or.inl rfl))), hb2l]
+              rw [hout, if_pos ((hc _).mpr ((s3 _).mpr (Or.inl (by simp)))), hb2l]
               simp only [if_true]
-            · intro t h1 h2 h3 h4
+            · intro t h1 h2
+              rw [hng]
               unfold Font.get
-              have hnp : ¬ (p.contains t = true) := by
-                rw [hc, hpm]; simp [h1, h2, h3, h4]
-              rw [hout, if_neg hnp, hb2l]
-              simp only [h1, h2, if_false, hbn t h3 h4]
-              cases font.lookup t <;> rfl
-            · intro hg
-              obtain ⟨a, repl, data, offs, j1, j2, j3, j4, j5, _, _⟩ := s2 hg
-              rw [← hng] at j3
-              refine ⟨a, repl, data, offs, j1, j2, j3, ?_, ?_⟩
-              · unfold Font.get
-                rw [hout, if_pos ((hc _).mpr ((hpm _).mpr (Or.inr (Or.inr ⟨hg, Or.inl rfl⟩)))), hb2l]
-                simp only [show TAG_glyf ≠ TAG_IFTX by decide, show TAG_glyf ≠ TAG_IFT by decide, if_false]
-                exact j4
-              · unfold Font.get
-                rw [hout, if_pos ((hc _).mpr ((hpm _).mpr (Or.inr (Or.inr ⟨hg, Or.inr rfl⟩)))), hb2l]
-                simp only [show TAG_loca ≠ TAG_IFTX by decide, show TAG_loca ≠ TAG_IFT by decide, if_false]
-                exact j5
-            · intro hg
-              have hx : ∀ t, t = TAG_glyf ∨ t = TAG_loca → (copyUnprocessed font p b2).get t = font.get t := by
-                intro t ht
-                have h1 : t ≠ TAG_IFTX := by rcases ht with e | e <;> subst e <;> decide
-                have h2 : t ≠ TAG_IFT := by rcases ht with e | e <;> subst e <;> decide
-                unfold Font.get
+              rw [hout, hb2l]
+              simp only [h1, h2, if_false]
+              rw [s2 t]
+              cases ho : ownerOf t with
+              | none =>
                 have hnp : ¬ (p.contains t = true) := by
-                  rw [hc, hpm]; simp [h1, h2, hg]
-                rw [hout, if_neg hnp, hb2l]
-                simp only [h1, h2, if_false, (s3 hg).1]
+                  rw [hc, s3]
+                  rintro (e | ⟨tg, e1, _⟩)
+                  · simp only [List.mem_cons, List.not_mem_nil, or_false] at e
+                    rcases e with e | e
+                    · exact h2 e
+                    · exact h1 e
+                  · rw [ho] at e1; cases e1
+                rw [if_neg hnp]
+                simp only [List.lookup]
                 cases font.lookup t <;> rfl
-              exact ⟨hx _ (Or.inl rfl), hx _ (Or.inr rfl)⟩
+              | some tg =>
+                simp only
+                by_cases c : tg ∈ tags
+                · have hpp : p.contains t = true := (hc t).mpr ((s3 t).mpr (Or.inr ⟨tg, ho, c⟩))
+                  rw [if_pos hpp, if_pos c, if_pos c]
+                · have hnp : ¬ (p.contains t = true) := by
+                    rw [hc, s3]
+                    rintro (e | ⟨tg', e1, e2⟩)
+                    · simp only [List.mem_cons, List.not_mem_nil, or_false] at e
+                      rcases e with e | e
+                      · exact h2 e
+                      · exact h1 e
+                    · rw [ho] at e1; cases e1; exact c e2
+                  rw [if_neg hnp, if_neg c, if_neg c]
+                  simp only [List.lookup]
+                  cases font.lookup t <;> rfl
+
+/-- the arm of a listed tag, spelled out: it succeeded and its tables are in the output -/
+theorem char_arm (font out : Font) (gps : List GlyphPatches) (tags : List Tag)
+    (harm : ∀ tag ∈ tags, ∀ r, armOf font gps (numGlyphs font - 1) tag = some r → ∃ outs, r = .ok outs)
+    (hout : ∀ t, t ≠ TAG_IFT → t ≠ TAG_IFTX → out.get t =
+        match ownerOf t with
+        | some tag =>
+          if tag ∈ tags then (armOuts font gps (numGlyphs font - 1) tag).lookup t else font.get t
+        | none => font.get t)
+    (tag : Tag) (hin : tag ∈ tags) (r : Except PErr (List (Tag × Bytes)))
+    (hr : armOf font gps (numGlyphs font - 1) tag = some r) :
+    ∃ outs, r = .ok outs ∧ ∀ td ∈ outs, out.get td.1 = some td.2 := by
+  obtain ⟨outs, e⟩ := harm tag hin r hr
+  subst e
+  refine ⟨outs, rfl, ?_⟩
+  have hao : armOuts font gps (numGlyphs font - 1) tag = outs := by simp [armOuts, hr]
+  have key : ∀ t d, ownerOf t = some tag → outs.lookup t = some d → out.get t = some d := by
+    intro t d ho hl
+    have h1 : t ≠ TAG_IFT := by
+      intro e; subst e; exact absurd (ownerOf_some _ _ ho) (by rw [show ownerOf TAG_IFT = none by decide] at ho; cases ho)
+    have h2 : t ≠ TAG_IFTX := by
+      intro e; subst e; exact absurd (ownerOf_some _ _ ho) (by rw [show ownerOf TAG_IFTX = none by decide] at ho; cases ho)
+    rw [hout t h1 h2, ho]
+    simp only [hin, if_true, hao, hl]
+  rcases armOf_ok_shape font gps _ tag outs hr with ⟨e, d, o, eo⟩ | ⟨e, b, eo⟩
+  · subst e eo
+    intro td htd
+    simp only [List.mem_cons, List.not_mem_nil, or_false] at htd
+    rcases htd with e | e <;> subst e
+    · exact key _ _ ((ownerOf_glyf_iff _).mpr (Or.inl rfl)) (by simp [List.lookup])
+    · exact key _ _ ((ownerOf_glyf_iff _).mpr (Or.inr rfl))
+        (by simp [List.lookup, show (TAG_loca == TAG_glyf) = false by decide])
+  · subst eo
+    intro td htd
+    simp only [List.mem_cons, List.not_mem_nil, or_false] at htd
+    subst htd
+    exact key _ _ ((ownerOf_single_iff _ _ e).mpr rfl) (by simp [List.lookup])
+
+/-- a table whose arm is not selected by any listed tag is the base font's -/
+theorem char_untouched (font out : Font) (gps : List GlyphPatches) (tags : List Tag)
+    (hout : ∀ t, t ≠ TAG_IFT → t ≠ TAG_IFTX → out.get t =
+        match ownerOf t with
+        | some tag =>
+          if tag ∈ tags then (armOuts font gps (numGlyphs font - 1) tag).lookup t else font.get t
+        | none => font.get t)
+    (t : Tag) (h1 : t ≠ TAG_IFT) (h2 : t ≠ TAG_IFTX) (hn : ∀ tag, ownerOf t = some tag → tag ∉ tags) :
+    out.get t = font.get t := by
+  rw [hout t h1 h2]
+  cases ho : ownerOf t with
+  | none => rfl
+  | some tg => simp only [hn tg ho, if_false]
 
 /-! ## reading glyf/loca, and reading the new loca back -/
 
@@ -509,7 +793,8 @@ theorem glyfAndLoca_some (font : Font) (a : OffsetArray) (h : glyfAndLoca font =
       a.offsetType = (if isLongLoca head then OffsetType.long else OffsetType.shortDivByTwo) ∧
       a.available = [a.offsetType] ∧
       a.missing = .invalidPatch "Start loca entry is missing." ∧ a.getErr = .fontParsingFailed .outOfBounds ∧
-      (∀ o ∈ a.offsets, o % a.offsetType.divisor = 0) := by
+      (∀ o ∈ a.offsets, o % a.offsetType.divisor = 0) ∧
+      a.ascOk = ascending a.offsets ∧ a.unreadable = [] := by
   unfold glyfAndLoca at h
   cases hg : font.get TAG_glyf with
   | none => rw [hg] at h; cases h
@@ -530,7 +815,7 @@ theorem glyfAndLoca_some (font : Font) (a : OffsetArray) (h : glyfAndLoca font =
           · cases h
           · simp only [Option.some.injEq] at h
             subst h
-            refine ⟨glyf, head, loca, rfl, rfl, rfl, rfl, ?_, rfl, rfl, rfl, ?_⟩
+            refine ⟨glyf, head, loca, rfl, rfl, rfl, rfl, ?_, rfl, rfl, rfl, ?_, rfl, rfl⟩
             · simp [isLongLoca, hlong]
             · intro o ho; simp [OffsetType.divisor, Nat.mod_one]
         | false =>
@@ -540,7 +825,7 @@ theorem glyfAndLoca_some (font : Font) (a : OffsetArray) (h : glyfAndLoca font =
           · cases h
           · simp only [Option.some.injEq] at h
             subst h
-            refine ⟨glyf, head, loca, rfl, rfl, rfl, rfl, ?_, rfl, rfl, rfl, ?_⟩
+            refine ⟨glyf, head, loca, rfl, rfl, rfl, rfl, ?_, rfl, rfl, rfl, ?_, rfl, rfl⟩
             · simp [isLongLoca, hlong]
             · intro o ho
               simp only [List.mem_map] at ho
@@ -559,11 +844,11 @@ theorem glyfAndLoca_readback (font font' : Font) (a : OffsetArray) (h : glyfAndL
     (hl : font'.get TAG_loca = some (encodeOffs a.offsetType os))
     (hdiv : ∀ o ∈ os, o % a.offsetType.divisor = 0)
     (hb : ∀ o ∈ os, o / a.offsetType.divisor < 2 ^ (a.offsetType.width * 8)) :
-    glyfAndLoca font' = some { a with offsets := os, data := data } := by
-  obtain ⟨glyf, head, loca, g1, g2, g3, g4, g5, g6, g7, g8, _⟩ := glyfAndLoca_some font a h
-  obtain ⟨t, av, offs, dat, mis, ge⟩ := a
-  simp only at g4 g5 g6 g7 g8 hl hdiv hb
-  subst g4 g6 g7 g8
+    glyfAndLoca font' = some { a with offsets := os, data := data, ascOk := ascending os } := by
+  obtain ⟨glyf, head, loca, g1, g2, g3, g4, g5, g6, g7, g8, _, _, g9⟩ := glyfAndLoca_some font a h
+  obtain ⟨t, av, offs, dat, mis, ge, asc, unr⟩ := a
+  simp only at g4 g5 g6 g7 g8 g9 hl hdiv hb
+  subst g4 g6 g7 g8 g9
   unfold glyfAndLoca
   rw [hg, hh, g2, hl]
   simp only
@@ -795,11 +1080,24 @@ theorem newOffsets_le_last (cs : List Bytes) : ∀ o ∈ newOffsets cs, o ≤ cs
   rw [h1, newOffsets_last] at this
   exact this
 
+theorem glyfAndLoca_ascSound (font : Font) (a : OffsetArray) (h : glyfAndLoca font = some a) :
+    a.AscSound := by
+  obtain ⟨_, _, _, _, _, _, _, _, _, _, _, _, g, _⟩ := glyfAndLoca_some font a h
+  intro hh; rw [← g]; exact hh
+
 theorem glyfAndLoca_divisor (font : Font) (a : OffsetArray) (h : glyfAndLoca font = some a) :
     (a.offsetType.divisor = 1 ∨ a.offsetType.divisor = 2) ∧ a.offsetType.bias = 0 := by
   obtain ⟨_, head, _, _, _, _, _, g5, _⟩ := glyfAndLoca_some font a h
   rw [g5]
   cases isLongLoca head <;> simp [OffsetType.divisor, OffsetType.bias]
+
+/-- the array a table reads back as after a splice: offsets = `newOffsets` of the chunks, data = their
+concatenation (the array's own ascending check then holds) -/
+def OffsetArray.rebase (a : OffsetArray) (cs : List Bytes) : OffsetArray :=
+  { a with offsets := newOffsets cs, data := cs.flatten, ascOk := ascending (newOffsets cs) }
+
+theorem OffsetArray.rebase_ascSound (a : OffsetArray) (cs : List Bytes) : (a.rebase cs).AscSound :=
+  fun h => h
 
 /-- the font produced by a successful glyf splice reads back as: offsets = `newOffsets` of the
 chunks, data = their concatenation -/
@@ -809,12 +1107,12 @@ theorem glyf_splice_readback (font out : Font) (a : OffsetArray) (repl : List (N
     (hp : patchOffsetArray a repl maxGid = .ok (a.offsetType, data, offs))
     (hg : out.get TAG_glyf = some data) (hl : out.get TAG_loca = some offs)
     (hh : out.get TAG_head = font.get TAG_head) :
-    glyfAndLoca out = some { a with offsets := newOffsets (chunks a a.offsetType repl maxGid),
-                                    data := (chunks a a.offsetType repl maxGid).flatten } := by
-  obtain ⟨e1, e2⟩ := patchOffsetArray_eq a repl maxGid hsort _ data offs hp
-  obtain ⟨f1, f2, f3, _⟩ := patchOffsetArray_facts a repl maxGid hsort _ data offs hp
+    glyfAndLoca out = some (a.rebase (chunks a a.offsetType repl maxGid)) := by
+  have hA := glyfAndLoca_ascSound font a ha
+  obtain ⟨e1, e2⟩ := patchOffsetArray_eq a repl maxGid hA hsort _ data offs hp
+  obtain ⟨f1, f2, f3, _⟩ := patchOffsetArray_facts a repl maxGid hA hsort _ data offs hp
   obtain ⟨hd, hbias⟩ := glyfAndLoca_divisor font a ha
-  obtain ⟨_, _, _, _, _, _, _, _, _, _, _, hdiv⟩ := glyfAndLoca_some font a ha
+  obtain ⟨_, _, _, _, _, _, _, _, _, _, _, hdiv, _, _⟩ := glyfAndLoca_some font a ha
   have hpw := ascending_pairwise _ f1
   have hcs : ∀ c ∈ chunks a a.offsetType repl maxGid, c.length % a.offsetType.divisor = 0 := by
     intro c hc
